@@ -6,6 +6,14 @@ HERE = os.path.dirname(os.path.dirname(os.path.abspath(__file__)))
 TECH = "bounded symbolic execution of the real Go code (go/ssa -> SMT-LIB bit-vectors), z3 decides every assertion/panic/branch; counterexamples replayed natively"
 
 CHECKS = {
+ "C01": dict(
+   text="The real header reader, body readers and Server.Serve loop run symbolically over the real standard.Conn: (H1) every 14/17-byte header name (all byte values; with key normalising on, every 2-byte window of the canonical name in quick, all bytes in thorough) influences framing iff it equals Content-Length/Transfer-Encoding ignoring ASCII case; (H2) every spelling of the Content-Length value up to D bytes either frames exactly v symbolic body bytes and leaves the next request intact, or is refused with one 400 + Connection: close and no handler; (H3) chunked bodies with symbolic size spellings and payload bytes deliver the concatenation and resume at the next request; (H4) k pipelined template requests are handled once each, in order, with one response each.",
+   note="transport = real standard.Conn over a harness net.Conn (netpoll outside); small bodies; templates for H4 are concrete (the solver ranges over choices and fragment size there); bounds in evidence",
+   ref="DESIGN.md §4 C01"),
+ "C02": dict(
+   text="For four message streams (obs-folded header + body + pipelined request, chunked with trailer, plain pipelining, and a header area with two symbolic structural bytes), the real Serve loop over the real standard.Conn is run twice per path - whole, and cut at a split point ranging over every position (thorough: every pair) - and z3 is asked whether handler-visible requests or response bytes can differ.",
+   note="server direction only; the split point is a concrete choice per path, the structural bytes are symbolic; client response side not yet covered",
+   ref="DESIGN.md §4 C02"),
  "C07": dict(
    text="For every byte string up to the stated length (all 256 byte values at every position) the real normalizePath / decodeArgAppendNoPlus / CleanPath, executed symbolically from go/ssa, satisfy the containment predicate and equal an independent decode-then-stack reference; z3 finds no counterexample within the bound. Bounded model checking, not a proof: longer inputs are outside the claim.",
    note="trusted: go/ssa lowering, the engine's instruction semantics (counterexamples must replay natively), z3 4.8.12, the 40-line reference in the harness; bounds: quick N<=6/7/5 bytes, thorough 9/10/7",
